@@ -382,6 +382,10 @@ fn benign_specs() -> Vec<BuildSpec> {
             .collect();
         s.files = vec![f, d, deep, ln, dangling, top, tmp, toml, bak];
         s.files.extend(hidden);
+        // paths that are tails / prefixes of one another, the relative './' spelling, names that differ in case
+        for p in ["/opt/app/share/doc/README", "/share/doc/README", "/README", "./.rel/.hidden/x", "/rel/hidden/x", "/q/File", "/q/file", "/lib/x", "/lib-1.0/y", "/lib.d/z"] {
+            s.files.push(FileSpec::new(p, Content::Bytes(format!("content of {}", p).into_bytes())));
+        }
         v.push(s);
     }
     v
@@ -413,13 +417,21 @@ pub fn sweeps(ctx: &Ctx) -> Vec<Sweep> {
         }));
     }
     if ctx.thorough() {
-        // ordered triples over a core
-        let core: Vec<Shape> = reduced.iter().filter(|s| s.dir != "/../" || s.base == 0).cloned().collect();
-        let core: Vec<Shape> = core.into_iter().take(40).collect();
-        let m = core.len() as u64;
-        v.push(Sweep::new("hostile-3", format!("every ordered triple over a {}-entry core ({} packages)", m, m * m * m), m * m * m, {
+        // ordered triples: the whole reduced alphabet as newc archives, a designed core in both layouts
+        let a = reduced.clone();
+        let m = a.len() as u64;
+        v.push(Sweep::new("hostile-3", format!("every ordered triple of entries over the reduced {}-entry alphabet ({} packages, newc archives)", m, m * m * m), m * m * m, {
             let jail = Jail::new("h3");
-            move |i, acc| hostile_case("hostile-3", &jail, &[&core[(i / m / m) as usize], &core[(i / m % m) as usize], &core[(i % m) as usize]], i % 3 == 1, i % 5 == 2, i, acc)
+            move |i, acc| hostile_case("hostile-3", &jail, &[&a[(i / m / m) as usize], &a[(i / m % m) as usize], &a[(i % m) as usize]], false, false, i, acc)
+        }));
+        let core: Vec<Shape> = full.iter().filter(|s| ["/", "/l/"].contains(&s.dir) && [0u8, 1, 4, 6, 8, 9].contains(&s.base) && [0u8, 1, 5, 6, 9].contains(&s.kind)).cloned().collect();
+        let c = core.len() as u64;
+        v.push(Sweep::new("hostile-3-core", format!("every ordered triple over a {}-entry core (directories / and /l/ × names f, l, \"\", l/f, s.tmp, s.txt × regular, directory, links to an outside file, an outside directory, a dangling name) as stripped archive and, into a relative destination, as newc archive ({} extractions)", c, c * c * c * 2), c * c * c * 2, {
+            let jail = Jail::new("h3c");
+            move |j, acc| {
+                let (i, second) = (j / 2, j % 2 == 1);
+                hostile_case("hostile-3-core", &jail, &[&core[(i / c / c) as usize], &core[(i / c % c) as usize], &core[(i % c) as usize]], !second, second, j, acc)
+            }
         }));
     }
     // benign subset
